@@ -300,6 +300,33 @@ def mkStep (st' : St) (ret : Option B3) (exc : Option Exc) (events : List EventI
   { disabled := B3.ofBool (!st'.run), run := B3.ofBool st'.run, ret := ret, exc := exc,
     swallowed := false, events := events }
 
+/-! ## Callback bodies that leave the switch flipped
+
+  FIXED READING of an ambiguity of the property ("validators run iff globally enabled" — at which instant?):
+  a construction follows the switch as it is **when the validators step is reached**, i.e. after the
+  pre-init hook, the factories and the converters of that construction have run (this is what the generated
+  `if _config._run_validators is True:` line does, standing where it stands).  A `set_disabled` call made
+  by a converter of the same construction is a switch operation like any other. -/
+
+/-- net effect of one run of the probing callback's body on the cell (nested readers do not move it) -/
+def bodyStep (c : Case) (b : Bool) : Bool := (runSt { run := b, stack := [] } c.body).run
+
+def iterB : Nat → (Bool → Bool) → Bool → Bool
+  | 0, _, b => b
+  | n + 1, g, b => iterB n g (g b)
+
+def probeCount (c : Case) (es : List EventId) : Nat :=
+  match c.probe with
+  | none => 0
+  | some p => es.count p
+
+/-- the cell as `__init__` finds it at the validators step: the position at the start of the call, moved by
+    every run of the probing callback's body among the callbacks that come first (pre-init hook, factories,
+    converters — what a construction with validators disabled runs before its post-init hook) -/
+def guardRun (c : Case) (cls : Cls) (run : Bool) : Bool :=
+  let before := ((runInit (initCase cls false c.fault)).trace.map (·.id)).filter (fun e => e.kind != "post")
+  iterB (probeCount c before) (bodyStep c) run
+
 /-- what is observed when `op` runs in state `st` and the switch moves to `st'` -/
 def stepObs (c : Case) (st st' : St) : Op → Step
   | .setDisabled _ => mkStep st' none none []
@@ -311,7 +338,7 @@ def stepObs (c : Case) (st st' : St) : Op → Step
   | .exit | .exitExc => mkStep st' none (if st.stack.isEmpty then some .other else none) []
   | .construct k => match c.classes[k]? with
     | some cls =>
-      let o := runInit (initCase cls st.run c.fault)
+      let o := runInit (initCase cls (guardRun c cls st.run) c.fault)
       mkStep st' none o.exc (o.trace.map (·.id))
     | none => mkStep st' none (some .other) []
   -- no hook looks at what the attribute currently holds: the value's identity plays no role
@@ -333,13 +360,14 @@ def St.init (c : Case) : St := { run := c.start, stack := [] }
 
 /-- a callback body runs under the switch exactly as it is when the callback is called — no reader touches
     `_config._run_validators` on the way to its callbacks — with a bracket frame of its own -/
-def runBody (c : Case) (run : Bool) : List Step := runOpsWith stepSt c { run := run, stack := [] } c.body
+def runBody (c : Case) (run : Bool) : List Step :=
+  runOpsWith stepSt { c with probe := none } { run := run, stack := [] } c.body
 
-/-- one body run per call of the probing callback during `op` -/
+/-- one body run per call of the probing callback during `op`; each run starts where the previous one left
+    the cell (a neutral body leaves it where it was) -/
 def nestedOf (c : Case) (st : St) (op : Op) : List (List Step) :=
-  match c.probe with
-  | none => []
-  | some p => List.replicate ((stepObs c st st op).events.count p) (runBody c st.run)
+  (List.range (probeCount c (stepObs c st st op).events)).map
+    (fun j => runBody c (iterB j (bodyStep c) st.run))
 
 def runNestedWith (stf : St → Op → St) (c : Case) : St → List Op → List (List (List Step))
   | _, [] => []
